@@ -423,7 +423,7 @@ def replay(ctx, path):
 def run(ctx):
     import translate_grammar
     quick = ctx.tier == "quick"
-    n_problems = 140 if quick else 6000
+    n_problems = 140 if quick else 4500
     t0 = time.time()
     # ---- 1. regenerate Gen/ from the tree under test (fail closed)
     try:
@@ -643,7 +643,7 @@ def run(ctx):
         fd["files"] += 1
         fd["crlf"] += crlf
         fd["with_message"] += bool(msg)
-        longest = max(len(l.rstrip("\r")) for l in text.split("\n"))
+        longest = max(len(l.rstrip("\r").expandtabs(8)) for l in text.split("\n"))
         fd["longest_line"] = max(fd["longest_line"], longest)
         version = (5, 1, 60) if plan.get("width") == 80 and longest <= 80 else None
         fd["regime_80_columns"] += version is not None
